@@ -26,7 +26,7 @@ ASSUMPTIONS = [
     "exhaustive only inside the edit grammar: this is the property where the bound says least about the unbounded claim",
 ]
 
-HOSTILE = ['"', ";", "=", ",", "%", "\\", "[", "]", ":", "@", " ", "\t", "\x80", "\xff", "a", "1", "-", "/", "*"]
+HOSTILE = ['"', ";", "=", ",", "%", "\\", "[", "]", ":", "@", " ", "\t", "\x80", "\xff", "a", "1", "-", "/", "*", "\xe2\x80\x94"]
 NUMS = ["", "-1", "0" * 5000 + "1", "9" * 5000, "9" * 20, "99999", "4294967296", "0000", "١", "1e5", "0x10", " 7", "+3",
         "10\xb9", "\xb2", "1\xbc", "\u0661\u0662", "1_0", "１２"]  # characters str.isdigit()/isdecimal() accept but int() may not (superscripts, fractions, other scripts' digits)
 LONG = "x" * 3000
@@ -63,7 +63,8 @@ def edits(s, tier, kind="header"):
         for n in NUMS:
             yield s[:m.start()] + n + s[m.end():]
     for m in re.finditer(r"(charset|boundary)=([^;]*)", s):
-        for v in ("nonsense", "", LONG, '"', "utf-16", "utf-8-sig", "idna", "undefined", "unicode_escape", "base64", "zlib", "punycode", "utf\0-8", "\0", "utf-8\0"):
+        for v in ("nonsense", "", LONG, '"', "utf-16", "utf-8-sig", "idna", "undefined", "unicode_escape", "base64", "zlib", "punycode", "utf\0-8", "\0", "utf-8\0",
+                  "\xe2\x80\x94x", "\xc5\x91", "b\xe4\xb8\xadd", "\xf0\x9f\x98\x80", "\xc3\xa9", "\xe9"):  # header bytes that are well-formed UTF-8 (em dash, o-double-acute, CJK, emoji, e-acute) and one that is not
             yield s[:m.start(2)] + v + s[m.end(2):]
     yield s + LONG
     yield s * 50
@@ -158,7 +159,24 @@ def report(r, entry, iface, exc, witness, what):
     r.violation(sig, dict(witness, iface=iface, entry=entry), f"{iface} {entry} on {what}: {type(exc).__name__}: {str(exc)[:120]}")
 
 
+def probe_body_under_header(r, name, value):
+    """A hostile Content-Length (or any other header) with an ordinary body behind it: the body accessors must cope as well."""
+    for ctype, body, accessor in (("application/json", JSON_BASE, "json"), ("application/json", JSON_BASE, "body"), ("application/x-www-form-urlencoded", FORM_BASE, "form"), ("multipart/form-data; boundary=bnd", MP_BASE, "form")):
+        headers = [("Content-Type", ctype), (name, value)] if name != "Content-Type" else [(name, value)]
+        areq = SV.AReq(method="POST", headers=headers, chunks=[body])
+        for iface in ("wsgi", "asgi"):
+            r.count("evaluations")
+            try:
+                exc = access_body(iface, areq, accessor)
+            except UnicodeEncodeError:
+                continue
+            if exc is not None and not allowed(exc):
+                report(r, accessor, iface, exc, {"kind": "body-under-header", "name": name, "value": value, "ctype": ctype, "accessor": accessor}, f"{name}: {value!r:.60} with a {ctype.split(';')[0]} body")
+
+
 def probe_headers(r, name, value, nontrivial=True):
+    if name in ("Content-Length", "Content-Type"):
+        probe_body_under_header(r, name, value)
     areq = SV.AReq(method="POST", path="/p", query=b"a=1", headers=[(name, value)])
     try:
         reqs = make_requests(areq)
@@ -368,7 +386,7 @@ def special_bodies():
         yield f"application/x-www-form-urlencoded; charset={cs}", FORM_BASE, "form"
         yield f"application/x-www-form-urlencoded; charset={cs}", b"a=\xff&\xe4=1", "form"
         yield f"multipart/form-data; boundary=bnd; charset={cs}", MP_BASE, "form"
-    for b in ("", '""', "(", "[", "\\", "*", "b" * 3000, "é", "a b", "--", "\\d+"):
+    for b in ("", '""', "(", "[", "\\", "*", "b" * 3000, "é", "a b", "--", "\\d+", "\xe2\x80\x94x", "\xc5\x91", "b\xe4\xb8\xadd", "\xf0\x9f\x98\x80"):
         yield f"multipart/form-data; boundary={b}", MP_BASE, "form"
         yield f"multipart/form-data; boundary={b}", MP_BASE.replace(b"bnd", b.encode("latin-1")), "form"
     yield "multipart/form-data", MP_BASE, "form"
